@@ -28,7 +28,8 @@ type setOp struct {
 
 func genSetOp(g *model.Gen, p int, forceValid bool) setOp {
 	bytesOp := func(setter string, okf func(n int) bool, call func(cl psatoken.IClaims, b []byte) error, apply func(a *model.Claims, b []byte), mk func(n int) []byte) setOp {
-		n := g.R.Intn(81)
+		lens := model.SweepLens()
+		n := lens[g.R.Intn(len(lens))]
 		if forceValid || g.R.Intn(2) == 0 {
 			for !okf(n) {
 				n = g.R.Intn(81)
@@ -224,7 +225,7 @@ func c11Literal(p int, canon string) psatoken.IClaims {
 }
 
 func runC11(c *mon.Ctx) {
-	c.Rule("histories = random sequences of 1..40 setter calls (all 9 setters of both profiles, values drawn from the C01 classes incl. every byte length 0..80, valid and invalid interleaved, repeats) on a NewClaims object (or, one history in five, a zero-value struct literal without container) of either base profile or (a third of the histories) of the registered extension profile embedding it; after EVERY call the full observation (Validate + 10 getters + component getters) is compared with a last-successful-write-wins model, a refused call must also leave both encodings byte-identical, the setter must accept iff the reference predicate accepts; at the end the same final values are replayed once each in shuffled order on a fresh object and both encodings must be byte-identical. Also single calls: every setter x every length 0..80. distinct_nontrivial = distinct (profile, setter, value-class, accepted?) + distinct history signatures")
+	c.Rule("histories = random sequences of 1..40 setter calls (all 9 setters of both profiles, values drawn from the C01 classes incl. every byte length 0..80 and lengths congruent to the legal ones modulo 2^8 / 2^16, valid and invalid interleaved, repeats) on a NewClaims object (or, one history in five, a zero-value struct literal without container) of either base profile or (a third of the histories) of the registered extension profile embedding it; after EVERY call the full observation (Validate + 10 getters + component getters) is compared with a last-successful-write-wins model, a refused call must also leave both encodings byte-identical, the setter must accept iff the reference predicate accepts; at the end the same final values are replayed once each in shuffled order on a fresh object and both encodings must be byte-identical. Also single calls: every setter x every length 0..80 (and the congruent lengths). distinct_nontrivial = distinct (profile, setter, value-class, accepted?) + distinct history signatures")
 	g := model.NewGen(c.Seed*7001 + int64(c.Shard))
 	nh := c.N(30000, 1500000)
 	if err := extprof.Register(extprof.ExtP2Name, extprof.ExtP1Name); err != nil {
@@ -364,7 +365,7 @@ func runC11(c *mon.Ctx) {
 	for pi := 0; pi < 4; pi++ {
 		p := 1 + pi%2
 		canon := map[int]string{0: model.P1Name, 1: model.P2Name, 2: extprof.ExtP1Name, 3: extprof.ExtP2Name}[pi]
-		for n := 0; n <= 80; n++ {
+		for _, n := range model.SweepLens() {
 			for _, st := range []string{"SetImplID", "SetBootSeed", "SetNonce", "SetInstID"} {
 				idx++
 				if !c.Mine(idx) {
